@@ -71,20 +71,19 @@ Theorem C08_validated : forall t status headers exc,
 Proof. exact (start_response_clean py_lower). Qed.
 Print Assumptions C08_validated.
 
-(* Whole runs: for every script (any actions, any faults, any disconnect), as long
-   as header pairs are not mutated in place with unclean strings, nothing is
-   written before the head and the head is the serialisation (C08_lines) of a
-   clean task. *)
-Theorem C08_wire_partial : forall c r disc a,
+(* Whole runs: for EVERY script (any actions, any faults, any disconnect, in-place
+   mutation of header pairs included -- start_response stores fresh tuples),
+   nothing is written before the head and the head is the serialisation
+   (C08_lines) of a clean task. *)
+Theorem C08_wire : forall c r disc a,
   cfg_clean c ->
   match r_error r with Some e => err_clean e | None => True end ->
-  app_ok a ->
   let res := run_task c r a disc in
   (o_wrote_header1 res = false -> o_writes1 res = [])
   /\ (o_wrote_header1 res = true ->
       exists h rest, o_writes1 res = WBytes h :: rest /\ HeadOK py_cap py_lower c r h).
 Proof. exact (fun c r disc a Hc Hr => wire_head py_cap py_lower py_cap_clean c Hc r disc Hr a). Qed.
-Print Assumptions C08_wire_partial.
+Print Assumptions C08_wire.
 
 (* A refused start_response before any output (first call, exc_info re-call, ...)
    is answered by the ladder's own 500 ... *)
@@ -104,21 +103,25 @@ Print Assumptions C08_refused_500.
 Theorem C08_500_server_only : forall c r disc a,
   cfg_clean c ->
   match r_error r with Some e => err_clean e | None => True end ->
-  app_ok a ->
   let res := run_task c r a disc in
   o_served_500 res = true ->
   o_writes1 res = [] /\ o_writes res = response_500 py_cap py_lower c r disc (o_nws1 res).
 Proof. exact (fun c r disc a Hc Hr => served_500_bytes py_cap py_lower py_cap_clean c Hc r disc Hr a). Qed.
 Print Assumptions C08_500_server_only.
 
-(* The full statement (without app_ok) is false of the faithful model: header
-   pairs passed as lists and mutated after validation reach the wire. *)
-Theorem C08_pair_alias_refuted :
+(* Header pairs passed as lists and mutated after validation: no effect on any
+   state (before 2730de7 the mutated strings reached the wire). *)
+Theorem C08_pair_mutation_harmless : forall c r disc s i isv v,
+  run_action py_cap py_lower c r disc s (AMutate i isv v) = (s, Ok tt).
+Proof. exact (mutation_no_effect py_cap py_lower). Qed.
+Print Assumptions C08_pair_mutation_harmless.
+
+Theorem C08_pair_alias_instance :
   exists h rest,
     o_writes (run_task sample_cfg sample_req alias_app None) = WBytes h :: rest
-    /\ In (lit "Set-Cookie: evil=1") (split h CRLF).
-Proof. exact pair_alias_injects. Qed.
-Print Assumptions C08_pair_alias_refuted.
+    /\ In (lit "X-A: ok") (split h CRLF) /\ ~ In (lit "Set-Cookie: evil=1") (split h CRLF).
+Proof. exact pair_alias_harmless. Qed.
+Print Assumptions C08_pair_alias_instance.
 
 (* the hypotheses are satisfiable *)
 Example C08_example_cfg : cfg_clean sample_cfg.
